@@ -414,6 +414,9 @@ func runSubstContra(p *Program, r *RuleResult) {
 		case rewritten && !equal:
 			r.add("(*process.Name).Equal / Substitute", construct, Violated, p.pos(sub.Pos()),
 				"in this state Substitute rewrites the name although Name.Equal does not equate it with the substituted name: binders (which are protected by Equal) and occurrences disagree, so re-bound names are captured or a callee's placeholder captures a caller's live channel of the same identifier")
+		case equal && !rewritten:
+			r.add("(*process.Name).Equal / Substitute", construct, Violated, p.pos(sub.Pos()),
+				"in this state Name.Equal equates the name with the substituted one although Substitute would not rewrite it: a binder in this state stops the substitution from descending (forms protect their binders with Equal) while the occurrences below it are exactly the ones that still have to be rewritten")
 		default:
 			r.add("(*process.Name).Equal / Substitute", construct, Holds, p.pos(sub.Pos()), fmt.Sprintf("rewritten=%v equal=%v", rewritten, equal))
 		}
